@@ -86,6 +86,12 @@ def make_extra(shadow):
     if shadow:
         ex['len'] = lambda x: 'shadowed-len'
         ex['id'] = 'shadowed-id'
+        # variables named like the classes a pipe catches: they are variables, the pipe still catches the classes
+        ex['AttributeError'] = 'shadowed-AttributeError'
+        ex['NameError'] = ZeroDivisionError
+        ex['TypeError'] = 'shadowed-TypeError'
+        ex['LookupError'] = 7
+        ex['ValueError'] = None
     return ex
 
 
@@ -406,6 +412,10 @@ def path_tree(rng, depth=0):
     if kind == 'list':
         return [path_tree(rng, depth + 1) for _ in range(rng.randint(1, 2))]
     kids = {k: path_tree(rng, depth + 1) for k in rng.sample(KEYS, rng.randint(1, 3))}
+    if rng.random() < .5:
+        # a callable stored under a name (as attribute or as item, depending on the record kind)
+        tag = 'F%d' % rng.randint(0, 99)
+        kids['fmt'] = (lambda *a, _t=tag: '%s(%s)' % (_t, ','.join(map(str, a))))
     return {'dict': dict, 'rec': Rec, 'row': Row, 'guarded': Guarded}[kind](**kids)
 
 
@@ -447,8 +457,14 @@ def path_expr(rng, tree):
         if isinstance(cur, list):
             i = rng.randrange(len(cur))
             src, val, cur = '%s[%d]' % (src, i), (lambda v=val, i=i: v()[i]), cur[i]
+        elif kids is not None and 'fmt' in kids and rng.random() < .35:
+            # called at once through attribute syntax: obj.fmt(1) - the callable may be an item
+            arg = rng.randint(0, 9)
+            src, val = '%s.fmt(%d)' % (src, arg), (lambda v=val, arg=arg: ref_attr(v(), 'fmt')(arg))
+            cur = None
+            break
         elif kids is not None:
-            k = rng.choice(sorted(kids)) if rng.random() < .85 else 'nosuch'
+            k = rng.choice(sorted(k_ for k_ in kids if k_ != 'fmt') or ['nosuch']) if rng.random() < .85 else 'nosuch'
             form = rng.random()
             if form < .7 or k == 'nosuch':
                 src, val = '%s.%s' % (src, k), (lambda v=val, k=k: ref_attr(v(), k))
